@@ -131,16 +131,16 @@ package clickhouse_planner
 //@ spec fn isRawCmp(c sql.SQLCondition) bool = typeis(c, "*sql.LogicalOp") && len(unbox(c, "*sql.LogicalOp").clauses) == 2 && typeis(unbox(c, "*sql.LogicalOp").clauses[0], "*sql.RawObject")
 // sqlLit(s): the SQL string literal StringVal renders for s (quotes included).
 // likeLiteral(b): b with every LIKE wildcard escaped, so that it matches itself only.
-//@ spec fn sqlLit(s string) string
+//@ spec fn sqlLit(s string) string = "'" + sqlEsc(s) + "'"
 //@ spec fn likeLiteral(b string) string = replaceAll(replaceAll(b, "%", "\\%"), "_", "\\_")
-//@ func (*LineFilterPlanner).enquoteStr
+//@ func (*LineFilterPlanner).enquoteStr [C07,C10]
 //@   modifies nothing
-//@   ensures result1 == nil ==> result0 == sqlLit(str)
+//@   ensures result1 == nil && result0 == sqlLit(str)
 //@ func (*LineFilterPlanner).doLike [C07]
 //@   modifies nothing
 //@   ensures result1 == nil ==> isRawCmp(result0)
 // The substring pattern: % + the literal's body with all wildcards escaped + %.
-//@ func (*LineFilterPlanner).doLikeVal [C07]
+//@ func (*LineFilterPlanner).doLikeVal [C07,C10]
 //@   modifies nothing
 //@   ensures result1 == nil ==> isRawCmp(result0)
 //@   ensures pattern: result1 == nil ==> unbox(unbox(result0, "*sql.LogicalOp").clauses[0], "*sql.RawObject").val == likeOp + "(samples.string, '%" + likeLiteral(strTrim(sqlLit(val), "'")) + "%')"
